@@ -1,6 +1,7 @@
 import Gomjml.Core.LayoutSpec
 import Gomjml.Core.LayoutCount
 import Gomjml.Core.LayoutStd
+import Gomjml.Core.CharData
 /-! # C04 — content fidelity: author content appears once, in order, as authored (property theorems only)
 
 Layout part, on the skeleton model (`t` = one content slot; the combined machine rejects `t` inside an Outlook
@@ -25,5 +26,34 @@ theorem C04_visible_full (bs : List Block) : Visible ((render bs).map Tok.toG) :
 example : Visible ((render [.section ⟨false, false, false, false, false, false, []⟩, .raw false,
                             .section ⟨false, false, false, false, false, false, []⟩]).map Tok.toG) := by
   unfold Visible; decide
+
+/-! ### as authored: character data on the way out (`parser.EscapeCharData`, used by every slot that re-serialises decoded text) -/
+
+/-- **what the author wrote is what the client shows**: a client that decodes the escaped text once gets the author's text back,
+    whatever it contains — markup characters, text that itself looks like a reference (`&lt;`, `&nbsp;`, `&#60;`) -/
+theorem C04_chardata_roundtrip (s : List Gomjml.Amp.B) :
+    Gomjml.CharData.unescape (Gomjml.CharData.escape s).length (Gomjml.CharData.escape s) = s := by
+  have hlen : s.length ≤ (Gomjml.CharData.escape s).length := by
+    unfold Gomjml.CharData.escape
+    induction s with
+    | nil => simp
+    | cons b r ih =>
+      simp only [List.flatMap_cons, List.length_append, List.length_cons]
+      have : 1 ≤ (Gomjml.CharData.escB b).length := by
+        unfold Gomjml.CharData.escB; split
+        · simp [Gomjml.CharData.eAmp]
+        · split
+          · simp [Gomjml.CharData.eLt]
+          · split <;> simp [Gomjml.CharData.eGt]
+      omega
+  exact Gomjml.CharData.unescape_escape s _ hlen
+
+/-- **character data never becomes markup**: the escaped text contains no `<` and no `>` -/
+theorem C04_chardata_never_markup (s : List Gomjml.Amp.B) : ∀ b ∈ Gomjml.CharData.escape s, b ≠ 60 ∧ b ≠ 62 :=
+  Gomjml.CharData.escape_no_markup s
+
+/-- non-vacuity: the author's `&lt;b&gt; &amp;nbsp;` (decoded: `<b> &nbsp;`) goes out as `&lt;b&gt; &amp;nbsp;` -/
+example : Gomjml.CharData.escape [60, 98, 62, 32, 38, 110, 98, 115, 112, 59]
+    = [38, 108, 116, 59, 98, 38, 103, 116, 59, 32, 38, 97, 109, 112, 59, 110, 98, 115, 112, 59] := by decide
 
 end Gomjml.Props.C04
